@@ -34,18 +34,19 @@ def canon(x):
         return ("S", tuple(x.s))
     if isinstance(x, lw.Circuit):
         return ("C", full_fingerprint(x))
-    if isinstance(x, emu.Source):
-        return ("Src", x.brightness, x.purity, x.indistinguishability, x.probability_threshold)
-    if isinstance(x, emu.Detector):
-        return ("Det", x.efficiency, x.p_dark, x.photon_counting)
-    if isinstance(x, emu.Backend):
-        return ("B", x.backend)
-    if isinstance(x, lw.PostSelection):
-        return ("PS", tuple(r.as_tuple() for r in x.rules))
+    if isinstance(x, (emu.Source, emu.Detector, emu.Backend, lw.PostSelection)):
+        # nested helper objects: their complete attribute dict too (hidden caches are state)
+        return (type(x).__name__, canon(vars(x)))
+    if hasattr(x, "as_tuple"):           # post-selection Rule
+        return ("Rule", x.as_tuple())
+    if isinstance(x, (set, frozenset)):
+        return ("set",) + tuple(sorted(repr(canon(i)) for i in x))
+    if callable(x) and hasattr(x, "__name__"):
+        return ("fn", x.__name__)
     if isinstance(x, (int, float, str, bool, type(None), complex, np.floating, np.integer)):
         return x if not isinstance(x, (np.floating, np.integer)) else x.item()
     if hasattr(x, "validate"):            # default / function post-selection objects
-        return ("PSobj", type(x).__name__)
+        return ("PSobj", type(x).__name__, canon(vars(x)) if hasattr(x, "__dict__") else None)
     if isinstance(x, CompiledCircuit):
         return ("CC", canon(x.U_full), canon(x.heralds), x.n_modes)
     if isinstance(x, SimulationResult):
@@ -242,7 +243,8 @@ def quick_fresh(q, w):
 
 
 def quick_config(q):
-    return kernel.fp8((full_fingerprint(q.circuit), tuple(q.input_state.s), q.photon_counting, canon(q.post_select)))
+    return kernel.fp8((full_fingerprint(q.circuit), tuple(q.input_state.s), q.photon_counting,
+                       tuple(r.as_tuple() for r in getattr(q.post_select, 'rules', []))))
 
 
 # ---------------- Analyzer
@@ -311,7 +313,7 @@ def analyzer_fresh(an, w):
 
 
 def analyzer_config(an):
-    return kernel.fp8((full_fingerprint(an.circuit), canon(an.post_selection)))
+    return kernel.fp8((full_fingerprint(an.circuit), tuple(r.as_tuple() for r in getattr(an.post_selection, 'rules', []))))
 
 
 # ---------------------------------------------------------------------------
